@@ -111,6 +111,20 @@ Section Pipeline.
       end
     end.
 
+  (* IncrementalDocument::save_internal starts with
+       target.inner.write_all(prev_document_bytes)?;  target.bytes_written += prev_document_bytes.len();
+     i.e. it bypasses CountingWrite and counts AFTER the write succeeded; then the same pipeline *)
+  Definition cw_write_all_after (c : cw) (buf : bytes) : wres * bytes * cw :=
+    let '(r, d, s') := wa (cw_inner c) buf in
+    (r, d, {| cw_inner := s';
+              cw_count := match r with WOk => cw_count c + N.of_nat (length buf) | WErr _ => cw_count c end%N |}).
+  Definition run_inc (prev : bytes) (calls : list bytes) (s : script) : wres * bytes * N :=
+    let '(r, d, c) := cw_write_all_after {| cw_inner := s; cw_count := 0 |} prev in
+    match r with
+    | WOk => let '(r', d', c') := run_cw calls c in (r', d ++ d', cw_count c')
+    | WErr e => (WErr e, d, cw_count c)
+    end.
+
   (* what the caller of save_to observes: result, bytes the sink holds; plus the private counter *)
   Definition run (calls : list bytes) (s : script) : wres * bytes * N :=
     let '(r, d, c) := run_cw calls {| cw_inner := s; cw_count := 0 |} in (r, d, cw_count c).
